@@ -282,6 +282,19 @@ func (g *fdGen) ruleAbs() (string, string) {
 	return b.String(), strings.Join([]string{dir, proto, src, spA, dst, dpA}, ",")
 }
 
+func fdPack(s string, swap bool) (res string) {
+	defer func() {
+		if r := recover(); r != nil {
+			res = "panic"
+		}
+	}()
+	b, err := forwarder.VerifNewFlowDesc(s, swap)
+	if err != nil {
+		return "err"
+	}
+	return hexOrDash(b)
+}
+
 func runFlowDesc(c *ctx) {
 	g := &fdGen{r: c.rng}
 	n := 20000
@@ -310,6 +323,17 @@ func runFlowDesc(c *ctx) {
 		c.count("rule")
 		s, abs := g.ruleAbs()
 		c.emit("T fd.rule %s %s = %s", hexOrDash([]byte(s)), abs, fdParse(s))
+	}
+	// the packed form handed to the data plane, for downlink and (source / destination exchanged) uplink PDRs
+	for i := 0; i < n/4; i++ {
+		c.count("pack")
+		s, abs := g.ruleAbs()
+		swap := c.rng.chance(50)
+		sw := "0"
+		if swap {
+			sw = "1"
+		}
+		c.emit("T fd.pack %s %s %s = %s", hexOrDash([]byte(s)), abs, sw, fdPack(s, swap))
 	}
 	// arbitrary ASCII and arbitrary bytes (incl. ':' / non-ASCII: outside the model, only "no fault" is claimed)
 	for i := 0; i < n/10; i++ {
